@@ -65,6 +65,8 @@ class Consts:
         return Fr(L) * (self.thr + eps)
 
     def chunk(self, L, conc):
+        if not self.divisor:
+            return None    # the extractor could not find one divisor used by all commands
         return max(L // (conc * self.divisor), 1)
 
 
@@ -584,9 +586,9 @@ def eval_e2e(ec, K, out, drv):
         out.violation('ratelimit:e2e:data-altered', f'{ec["cmd"]}_objects with rate_limit={L}: content of {badn} differs after passing the limiter', rep)
     # 2. chunk size chosen by the command == model's chunkSize
     want = K.chunk(L, ec['conc'])
-    if drv is not None:
-        want = drv.ask({'op': 'rate.chunk', 'limit': L, 'concurrent': ec['conc']}).get('chunk', want)
-    if any(c != want for c in backend.seen_chunk_sizes):
+    if want is None:
+        out.disagreement(f'{ec["cmd"]}_objects: the model has no chunk size (the commands do not share one divisor); observed {sorted(set(backend.seen_chunk_sizes))}', rep)
+    elif any(c != want for c in backend.seen_chunk_sizes):
         out.disagreement(f'{ec["cmd"]}_objects(rate_limit={L}, concurrent={ec["conc"]}) passed chunk sizes {sorted(set(backend.seen_chunk_sizes))}, model chunkSize = {want}', rep)
     else:
         out.traces_validated += 1
@@ -700,7 +702,8 @@ def run(out, drv, info):
         except Exception as e:  # noqa: BLE001
             out.case(summarize(case), False)
             out.count('impl_exception:' + type(e).__name__)
-            out.disagreement(f'implementation raised {type(e).__name__}: {e}', {'kind': 'history', 'case': case})
+            out.violation('ratelimit:call-raised:' + type(e).__name__, f'a call through the wrapper raised {type(e).__name__}: {e} (the transfer is aborted)',
+                          {'kind': 'history', 'case': case})
             continue
         ncalls = len(res['calls'])
         nsleeps = sum(len(c['sleeps']) for c in res['calls'])
@@ -753,7 +756,12 @@ def run(out, drv, info):
             for st in p:
                 if st['k'] == 'io' and st['n'] is not None:
                     st['n'] = min(st['n'], lim // 4)
-        res, pays = run_real(case)
+        try:
+            res, pays = run_real(case)
+        except Exception as e:  # noqa: BLE001
+            out.violation('ratelimit:call-raised:' + type(e).__name__, f'a call through the wrapper raised {type(e).__name__}: {e} (the transfer is aborted)',
+                          {'kind': 'history', 'case': case})
+            continue
         out.evaluations += 1
         out.count('class:non-power-of-two(oracle only)')
         slackK = _Slack(K)
@@ -782,7 +790,8 @@ def run(out, drv, info):
         try:
             eval_stack(sc, drv, out)
         except Exception as e:  # noqa: BLE001
-            out.disagreement(f'wrapper stack raised {type(e).__name__}: {e}', {'kind': 'stack', 'case': dict(sc, ops=stack_ops_json(sc['ops']))})
+            out.violation('ratelimit:call-raised:' + type(e).__name__, f'an operation through TQDM→limiter→stream raised {type(e).__name__}: {e}',
+                          {'kind': 'stack', 'case': dict(sc, ops=stack_ops_json(norm_ops(sc['ops'])))})
         out.evaluations += 1
         out.count('stack:' + sc['dir'] + (':callback' if sc['callback'] else ''))
         for o in sc['ops']:
@@ -793,7 +802,11 @@ def run(out, drv, info):
     try:
         for k in range(n_e2e):
             ec = gen_e2e(r4, k)
-            st = eval_e2e(ec, K, out, drv)
+            try:
+                st = eval_e2e(ec, K, out, drv)
+            except Exception as e:  # noqa: BLE001
+                out.violation('ratelimit:e2e:raised:' + type(e).__name__, f'{ec["cmd"]}_objects(rate_limit={ec["L"]}) raised {type(e).__name__}: {e}', {'kind': 'e2e', 'case': ec})
+                continue
             out.evaluations += 1
             out.count('e2e:' + ec['cmd'])
             out.count('e2e_limiter_instances:%d' % st['instances'])
@@ -803,7 +816,7 @@ def run(out, drv, info):
         shutil.rmtree(WORK / str(os.getpid()), ignore_errors=True)
 
     # ---- chunk size rule: the hypothesis of the theorems for every limit the CLI accepts
-    if drv is not None:
+    if drv is not None and K.divisor:
         reqs = [{'op': 'rate.chunk', 'limit': L, 'concurrent': c} for L in list(range(1, 70)) + [100, 1000, 4095, 4096, 65_537, 10 ** 6, 10 ** 9] for c in (1, 2, 5, 16)]
         for q, a in zip(reqs, drv.ask_many(reqs)):
             out.evaluations += 1
@@ -811,9 +824,49 @@ def run(out, drv, info):
                 out.disagreement('chunkSize', {'req': q, 'reply': a})
             elif q['limit'] >= 4 and 4 * a['chunk'] > q['limit']:
                 out.violation('ratelimit:chunk-over-quarter', f'rate_limit={q["limit"]}, concurrent={q["concurrent"]}: chunk size {a["chunk"]} > limit/4', {'kind': 'chunk', 'req': q})
+    # ---- observation outside the quantifier (never a violation): the S3 backend hashes the stream through the limiter
+    try:
+        out.extra['s3_digest_pass_observation'] = s3_digest_observation()
+    except Exception as e:  # noqa: BLE001
+        out.extra['s3_digest_pass_observation'] = f'not observed: {type(e).__name__}: {e}'
     out.extra['not_checked_here'] = ('limits 1–3 B/s: the one-byte chunk is more than a quarter of the limit (outside the property\'s quantifier; with limit 1 the cap '
                                      'forgives half a second per byte — Lean: C20.low_limit_forgives); S3 upload_stream hashes the stream through the limiter in 640 000-byte reads '
                                      '(backend code, requests larger than the chunk size the command chose)')
+
+
+def s3_digest_observation(L=100_000, size=2_000_000):
+    """Real S3Compatible.upload_stream on a mock transport, stream wrapped by the real limiter, virtual clock."""
+    import io
+    import httpx
+    from replicat.backends.s3c import S3Compatible
+    from ..impl import vclock
+    utils = rr.utils_module()
+    clock = vclock.InlineClock(0.0)
+    calls = []
+
+    class Rec(io.BytesIO):
+        def read(self, n=-1):
+            d = super().read(n)
+            calls.append((clock.now, len(d)))
+            return d
+
+    async def main():
+        b = S3Compatible('bucket', key_id='k', access_key='s', region='r', host='h.example')
+
+        async def handler(request):
+            async for _ in request.stream:
+                pass
+            return httpx.Response(200)
+        b._client = httpx.AsyncClient(transport=httpx.MockTransport(handler), event_hooks=b._client.event_hooks)
+        with rr.patched_time(utils, clock):
+            rl = utils.RateLimitedIO(L)
+            await b.upload_stream('x', rl.wrap(Rec(bytes(size))), size, max(L // 16, 1))
+    asyncio.run(main())
+    big = [c for c in calls if 4 * c[1] > L]
+    return {'rate_limit': L, 'object_size': size, 'command_chunk_size': max(L // 16, 1), 'reads_larger_than_L/4': len(big),
+            'largest_read': max(c[1] for c in calls), 'bytes_through_wrapper_in_first_2s': sum(c[1] for c in calls if c[0] <= 2.0),
+            'virtual_seconds_total': clock.now, 'note': 'digest pre-pass of s3c.upload_stream reads hasher.block_size*10000 bytes per call through the limiter; '
+            'those bytes go to the hash, not to the network; the upload proper uses the command chunk size and is limited'}
 
 
 class _Slack:
